@@ -299,6 +299,33 @@ func (e *c5e) hasEllTop() bool {
 	return false
 }
 
+// stripEllTop removes (in place) every `...` that hasEllTop sees; reports whether any was removed.
+func (e *c5e) stripEllTop() bool {
+	found := false
+	switch e.op {
+	case '{':
+		var ds []c5d
+		for _, d := range e.decls {
+			if d.kind == '.' {
+				found = true
+				continue
+			}
+			if d.kind == 'e' && d.v.stripEllTop() {
+				found = true
+			}
+			ds = append(ds, d)
+		}
+		e.decls = ds
+	case 'c', 'd', '&':
+		for _, a := range e.args {
+			if a.stripEllTop() {
+				found = true
+			}
+		}
+	}
+	return found
+}
+
 func (e *c5e) unwrap() *c5e {
 	for e.op == 'c' || e.op == 'd' {
 		e = e.args[0]
@@ -468,6 +495,230 @@ func (e *c5e) usesPatternAny() bool {
 		}
 	}
 	return false
+}
+
+// ---- attribution of a disagreement to a known defect --------------------------------
+//
+// A case belongs to a known-finding class only if (1) its schema has the exact syntactic
+// shape of that class, (2) the implementation ACCEPTS it (the recorded direction: the
+// implementation accepts what the spec checker rejects) and (3) the COUNTERFACTUAL holds:
+// after rewriting just that shape into the spec-equivalent form which the unchanged tree
+// evaluates correctly, the implementation rejects the case.  A different defect in a case
+// that merely contains such a shape survives the rewrite and is reported.
+
+// definition whose body is directly a close() call
+func (e *c5e) defOfClose() bool {
+	return e.anyNode(func(n *c5e) bool { return n.op == 'd' && n.args[0].op == 'c' })
+}
+
+// closedEllipsisConj: inside an embedded expression, a conjunction with one operand that
+// has `...` at its own level and another operand that is closed; or a struct literal with
+// two sibling embeddings of that kind.
+func (e *c5e) closedEllipsisConj() bool {
+	isSuch := func(n *c5e) bool {
+		if n.op != '&' {
+			return false
+		}
+		ell, cls := false, false
+		for _, a := range n.args {
+			if a.hasEllTop() {
+				ell = true
+			}
+			if a.topClosers() > 0 {
+				cls = true
+			}
+		}
+		return ell && cls
+	}
+	return e.anyNode(func(n *c5e) bool {
+		if n.op != '{' {
+			return false
+		}
+		ell, cls := false, false
+		for _, d := range n.decls {
+			if d.kind != 'e' {
+				continue
+			}
+			if d.v.anyNode(isSuch) {
+				return true
+			}
+			// ... or two sibling embeddings, one with `...` at its own level, one closed
+			if d.v.hasEllTop() {
+				ell = true
+			} else if d.v.topClosers() > 0 {
+				cls = true
+			}
+		}
+		return ell && cls
+	})
+}
+
+// conflictingRequiredUnderHidden: below a hidden/definition field, a struct literal with a
+// `!` field whose label is constrained at least twice in that literal.
+func (e *c5e) conflictingRequiredUnderHidden() bool {
+	bad := func(n *c5e) bool {
+		if n.op != '{' {
+			return false
+		}
+		for _, d := range n.decls {
+			if d.kind != 'f' || d.marker != "!" {
+				continue
+			}
+			k := 0
+			for _, d2 := range n.decls {
+				if (d2.kind == 'f' && d2.label == d.label) || d2.kind == 'p' {
+					k++
+				}
+			}
+			if k >= 2 {
+				return true
+			}
+		}
+		return false
+	}
+	return e.anyNode(func(n *c5e) bool {
+		for _, d := range n.decls {
+			if d.kind == 'f' && (d.label[0] == '_' || d.label[0] == '#') && d.v.anyNode(bad) {
+				return true
+			}
+		}
+		return false
+	})
+}
+
+// repair rewrites exactly the shapes of the given class (spec-equivalent rewrites).
+func (e *c5e) repair(class string, underHidden bool) *c5e {
+	n := &c5e{op: e.op, n: e.n}
+	for _, a := range e.args {
+		n.args = append(n.args, a.repair(class, underHidden))
+	}
+	for _, d := range e.decls {
+		d2 := d
+		if d.v != nil {
+			d2.v = d.v.repair(class, underHidden || (d.kind == 'f' && (d.label[0] == '_' || d.label[0] == '#')))
+		}
+		n.decls = append(n.decls, d2)
+	}
+	switch class {
+	case "close-of-definition-reference": // close(#D) == close(#D & {})
+		if n.op == 'c' && n.args[0].op == 'd' {
+			n.args[0] = conj(n.args[0], lit())
+		}
+	case "definition-body-is-close-call": // #D: close(X) == #D: {close(X)}
+		if n.op == 'd' && n.args[0].op == 'c' {
+			n.args[0] = lit(emb(n.args[0]))
+		}
+	case "ellipsis-inside-embedding": // (closed & {..., f}) == (closed & {f}); {{..., f}, E} == {{f}, E, ...}
+		if n.op == '{' {
+			cls, hoist := false, false
+			for _, d := range n.decls {
+				if d.kind == 'e' && !d.v.hasEllTop() && d.v.topClosers() > 0 {
+					cls = true
+				}
+			}
+			if cls {
+				for _, d := range n.decls {
+					if d.kind != 'e' {
+						continue
+					}
+					if d.v.stripEllTop() {
+						hoist = true
+					}
+				}
+				if hoist {
+					n.decls = append(n.decls, ellD())
+				}
+			}
+		}
+		if n.op == '&' {
+			cls := false
+			for _, a := range n.args {
+				if a.topClosers() > 0 {
+					cls = true
+				}
+			}
+			if cls {
+				for i, a := range n.args {
+					if a.op == '{' {
+						var ds []c5d
+						for _, d := range a.decls {
+							if d.kind != '.' {
+								ds = append(ds, d)
+							}
+						}
+						n.args[i] = lit(ds...)
+					}
+				}
+			}
+		}
+	case "nested-embedding": // {{decls}, more} == {decls, more};  {X} == X
+		if n.op == '{' {
+			var ds []c5d
+			for _, d := range n.decls {
+				if d.kind == 'e' && d.v.op == '{' {
+					ds = append(ds, d.v.decls...)
+				} else {
+					ds = append(ds, d)
+				}
+			}
+			n.decls = ds
+			if len(n.decls) == 1 && n.decls[0].kind == 'e' {
+				return n.decls[0].v
+			}
+		}
+	case "bottom-required-constraint-under-hidden-field": // below hidden fields `!` is not checked
+		if underHidden && n.op == '{' {
+			for i := range n.decls {
+				if n.decls[i].kind == 'f' && n.decls[i].marker == "!" {
+					n.decls[i].marker = "?"
+				}
+			}
+		}
+	}
+	return n
+}
+
+// c5shapeClasses lists the known classes whose syntactic shape occurs in the schema.
+func c5shapeClasses(schema *c5e) []string {
+	var ks []string
+	if schema.closeOfDef() {
+		ks = append(ks, "close-of-definition-reference")
+	}
+	if schema.defOfClose() {
+		ks = append(ks, "definition-body-is-close-call")
+	}
+	if schema.closedEllipsisConj() {
+		ks = append(ks, "ellipsis-inside-embedding")
+	}
+	if schema.nestedEmbedding() {
+		ks = append(ks, "nested-embedding")
+	}
+	if schema.conflictingRequiredUnderHidden() {
+		ks = append(ks, "bottom-required-constraint-under-hidden-field")
+	}
+	return ks
+}
+
+// c5attribute returns the known-finding class of an ACCEPTED case, or "".
+func c5attribute(schema, data *c5e) string {
+	for _, k := range c5shapeClasses(schema) {
+		if c5eval(c5source(schema.repair(k, false), data), false).class == "err" {
+			return k
+		}
+	}
+	return ""
+}
+
+// c5addFails: does the implementation itself reject adding field l to schema & data
+// (with a struct value and with a scalar value)?
+func c5addFails(schema, data *c5e, l string) bool {
+	for _, v := range []*c5e{lit(), c5one} {
+		d2 := lit(append(append([]c5d{}, data.decls...), fld(l, "", v))...)
+		if c5eval(c5source(schema, d2), false).class == "ok" {
+			return false
+		}
+	}
+	return true
 }
 
 // ---- the implementation side ---------------------------------------------------------
@@ -756,7 +1007,9 @@ type c5case struct {
 }
 
 type c5out struct {
-	skip    bool // an embedded value is erroneous on its own (region the model does not represent)
+	tag     string            // known-finding class of the accepted case (attributed), or ""
+	atag    map[string]string // per label: known class of a wrong Allows=true answer (attributed)
+	skip    bool              // an embedded value is erroneous on its own (region the model does not represent)
 	cs      c5case
 	res     c5res
 	sole    string // class of `{schema} & data`
@@ -772,6 +1025,44 @@ func c5run(cs c5case, direct bool) c5out {
 	if o.res.class == "err" && c5embeddedValueFails(cs.schema) {
 		o.skip = true
 		return o
+	}
+	if o.res.class == "ok" {
+		o.tag = c5attribute(cs.schema, cs.data)
+		if o.tag == "" && o.res.allows != nil && cs.schema.topClosers() >= 1 {
+			var rep map[string]c5res // Allows on the repaired schema, per class, lazily
+			for _, l := range c5allowLabels {
+				if !o.res.allows[l] {
+					continue
+				}
+				cls := ""
+				if c5addFails(cs.schema, cs.data, l) {
+					cls = "allows-ignores-closed-conjuncts"
+				} else {
+					// the implementation really admits l: known only if repairing the shape
+					// of a known class makes Allows(l) false
+					for _, k := range c5shapeClasses(cs.schema) {
+						if rep == nil {
+							rep = map[string]c5res{}
+						}
+						r, ok := rep[k]
+						if !ok {
+							r = c5eval(c5source(cs.schema.repair(k, false), cs.data), true)
+							rep[k] = r
+						}
+						if r.allows != nil && !r.allows[l] {
+							cls = k
+							break
+						}
+					}
+				}
+				if cls != "" {
+					if o.atag == nil {
+						o.atag = map[string]string{}
+					}
+					o.atag[l] = cls
+				}
+			}
+		}
 	}
 	if !direct {
 		return o
@@ -827,20 +1118,8 @@ func c5emit(c *Cfg, o c5out) {
 		return
 	}
 	sw, dw := o.cs.schema.Word(), o.cs.data.Word()
-	// known-finding classes: only cases the implementation ACCEPTS can belong to them
-	tag := ""
-	if o.res.class == "ok" {
-		switch {
-		case o.cs.schema.closeOfDef():
-			tag = "close-of-definition-reference"
-		case o.cs.schema.ellipsisInsideEmbedding():
-			tag = "ellipsis-inside-embedding"
-		case o.cs.schema.nestedEmbedding():
-			tag = "nested-embedding"
-		case o.cs.schema.requiredUnderHidden():
-			tag = "bottom-required-constraint-under-hidden-field"
-		}
-	}
+	// known-finding classes: see c5attribute (shape + direction + counterfactual)
+	tag := o.tag
 	ans := o.res.class
 	if ans == "ok" {
 		ans += " " + o.res.fields
@@ -848,11 +1127,13 @@ func c5emit(c *Cfg, o c5out) {
 	c.OpTag("O", tag, "val "+sw+" "+dw, ans)
 	c.OpTag("O", tag, "adm "+sw+" "+dw, o.res.class)
 	if o.res.allows != nil {
-		atag := tag
-		if atag == "" && (o.cs.schema.topClosers() >= 2 || (o.cs.schema.topClosers() >= 1 && o.cs.schema.hasTopConj())) {
-			atag = "allows-ignores-closed-conjuncts"
-		}
 		for _, l := range c5allowLabels {
+			atag := tag
+			if atag == "" {
+				// "allows-ignores-closed-conjuncts": Allows(l) is true although the
+				// implementation itself rejects adding l; or a class attributed by repair
+				atag = o.atag[l]
+			}
 			c.OpTag("O", atag, "allows "+sw+" "+dw+" "+l, fmt.Sprint(o.res.allows[l]))
 		}
 	}
@@ -870,7 +1151,7 @@ func c5emit(c *Cfg, o c5out) {
 		switch {
 		case o.sole == "ok" && o.cs.schema.closeOfDef():
 			stag = "close-of-definition-reference"
-		case o.sole == "ok" && wrapped.ellipsisInsideEmbedding():
+		case o.sole == "ok" && (wrapped.closedEllipsisConj() || wrapped.ellipsisInsideEmbedding()):
 			stag = "ellipsis-inside-embedding"
 		case o.sole == "ok" && wrapped.nestedEmbedding():
 			stag = "nested-embedding"
@@ -1088,6 +1369,41 @@ func runC05(c *Cfg) {
 	for _, s := range corpusS {
 		for _, d := range corpusD {
 			add("corpus", s, d)
+		}
+	}
+
+	// ---- close() embedded in definition bodies and in embeddings, offending field 2-3 levels
+	// deep below a field the close() contributes, from the data AND from another conjunct.
+	// ("definitions close recursively", also for what they get from an embedded close())
+	{
+		leaf := lit(C("?", c5int))
+		inners := []*c5e{
+			lit(A("?", leaf)), lit(A("!", leaf)), lit(A("", leaf)), lit(ptn("^a", leaf)), lit(ptn("*", leaf)),
+			lit(A("?", lit(B("?", leaf)))), lit(A("?", leaf), B("?", c5int)),
+		}
+		datas := []*c5e{
+			lit(), lit(A("", lit())), lit(A("", lit(C("", c5one)))), lit(A("", lit(B("", c5one)))),
+			lit(fld("ab", "", lit(B("", c5one)))), lit(A("", lit(B("", lit(A("", c5one)))))),
+			lit(A("", lit(B("", lit(C("", c5one)))))), lit(A("", lit(B("", c5one))), B("", c5one)), lit(C("", c5one)),
+		}
+		offenders := []*c5e{lit(A("", lit(B("", c5one)))), lit(A("", lit(B("", lit(A("", c5one))))))}
+		for _, in := range inners {
+			bodies := []*c5e{
+				lit(emb(cl(in))), lit(emb(cl(in)), B("?", c5int)), cl(lit(emb(cl(in)))), lit(emb(lit(emb(cl(in))))),
+				lit(emb(cl(lit(emb(in))))), lit(emb(cl(in)), A("?", lit(fld("ab", "?", c5int)))),
+				cl(in), lit(emb(df(lit(emb(cl(in)))))), lit(emb(cl(in)), ellD()),
+			}
+			for _, b := range bodies {
+				for _, s := range []*c5e{df(b), lit(emb(df(b))), conj(df(b), lit()), df(lit(emb(df(b)))), b} {
+					for _, d := range datas {
+						add("def-embeds-close", s, d)
+					}
+					for _, off := range offenders {
+						add("def-embeds-close-conj", conj(s, off), lit())
+						add("def-embeds-close-conj", conj(s, off), lit(B("", c5one)))
+					}
+				}
+			}
 		}
 	}
 
